@@ -594,7 +594,8 @@ def _process_chunk_spec(
 
             iterator = AnnDataRowIterator(
                 h5ad_path=chunk_spec[0],
-                row_chunk_size=rows_at_a_time)
+                row_chunk_size=rows_at_a_time,
+                tmp_dir=pathlib.Path(buffer_path).parent)
 
             iterator_path = chunk_spec[0]
 
